@@ -129,56 +129,65 @@ func (v *Verifier) solve(o *Oblig, dir string, all bool) {
 	}
 	var outs []string
 	status := "proved"
+	var mu sync.Mutex
+	var pwg sync.WaitGroup
+	psem := make(chan struct{}, 4)
 	for i, p := range parts {
 		if p.Done {
 			continue
 		}
-		q := o.renderPart(p.Goal, p.Anc)
-		suffix := ""
-		if len(parts) > 1 {
-			suffix = fmt.Sprintf(".part%d", i+1)
-		}
-		file := filepath.Join(dir, fmt.Sprintf("q%05d-", atomic.AddInt64(&querySeq, 1))+sanitizeFile(o.Name)+suffix+".smt2")
-		os.WriteFile(file, []byte(q+"(get-model)\n"), 0o644)
-		rv := v
-		if o.Expected {
-			// listed as a known finding: it is expected not to discharge, so do not
-			// spend the full timeout on it (a short attempt still notices a repair)
-			rv = &Verifier{Timeout: 3}
-			if v.Timeout < 3 {
-				rv.Timeout = v.Timeout
+		pwg.Add(1)
+		psem <- struct{}{}
+		go func(i int, p obPart) {
+			defer pwg.Done()
+			defer func() { <-psem }()
+			q := o.renderPart(p.Goal, p.Anc)
+			suffix := ""
+			if len(parts) > 1 {
+				suffix = fmt.Sprintf(".part%d", i+1)
 			}
-		}
-		st, solver, secs, out, model := rv.race(file, all)
-		o.Secs += secs
-		if len(parts) > 1 {
-			out = fmt.Sprintf("[part %d/%d] %s", i+1, len(parts), out)
-		}
-		switch st {
-		case "proved":
-			if o.Solver == "" {
+			file := filepath.Join(dir, fmt.Sprintf("q%05d-", atomic.AddInt64(&querySeq, 1))+sanitizeFile(o.Name)+suffix+".smt2")
+			os.WriteFile(file, []byte(q+"(get-model)\n"), 0o644)
+			rv := v
+			if o.Expected {
+				// listed as a known finding: it is expected not to discharge, so do not
+				// spend the full timeout on it (a short attempt still notices a repair)
+				rv = &Verifier{Timeout: 3}
+				if v.Timeout < 3 {
+					rv.Timeout = v.Timeout
+				}
+			}
+			st, solver, secs, out, model := rv.race(file, all)
+			mu.Lock()
+			defer mu.Unlock()
+			o.Secs += secs
+			if len(parts) > 1 {
+				out = fmt.Sprintf("[part %d/%d] %s", i+1, len(parts), out)
+			}
+			switch st {
+			case "proved":
+				if o.Solver == "" {
+					o.Solver = solver
+				}
+				if len(parts) == 1 {
+					outs = append(outs, out)
+				}
+			case "failed":
+				status = "failed"
 				o.Solver = solver
-			}
-			if len(parts) == 1 {
+				o.Model = model
+				o.Query = file
+				outs = append(outs, out)
+			default:
+				if status != "failed" {
+					status = "unknown"
+					o.Query = file
+				}
 				outs = append(outs, out)
 			}
-		case "failed":
-			status = "failed"
-			o.Solver = solver
-			o.Model = model
-			o.Query = file
-			outs = append(outs, out)
-		default:
-			if status != "failed" {
-				status = "unknown"
-				o.Query = file
-			}
-			outs = append(outs, out)
-		}
-		if status == "failed" {
-			break
-		}
+		}(i, p)
 	}
+	pwg.Wait()
 	if o.Query == "" && len(parts) > 0 {
 		o.Query = filepath.Join(dir, sanitizeFile(o.Name)+map[bool]string{true: ".part1", false: ""}[len(parts) > 1]+".smt2")
 	}
@@ -206,11 +215,22 @@ func (v *Verifier) solveCanary(o *Oblig, dir string) {
 		}
 		file := filepath.Join(dir, fmt.Sprintf("q%05d-", atomic.AddInt64(&querySeq, 1))+sanitizeFile(o.Name)+fmt.Sprintf(".part%d", i+1)+".smt2")
 		os.WriteFile(file, []byte(o.renderPart(p.Goal, p.Anc)), 0o644)
-		quick := &Verifier{Timeout: 2}
-		if v.Timeout < 3 {
-			quick.Timeout = v.Timeout
+		// one quick attempt with z3 5.x and one with z3 4.8 (they find models for the
+		// quantifier-light paths; "unknown" is accepted, only "unsat" is an alarm)
+		st, solver, secs, out := "unknown", "", 0.0, ""
+		for _, sv := range []solverSpec{solvers[0], solvers[1]} {
+			r := runSolver(context.Background(), sv, file, 1)
+			secs += r.secs
+			out += fmt.Sprintf("%s=%s(%.2fs) ", r.solver, r.ans, r.secs)
+			if r.ans == "sat" {
+				st, solver = "failed", r.solver
+				break
+			}
+			if r.ans == "unsat" {
+				st, solver = "proved", r.solver
+				break
+			}
 		}
-		st, solver, secs, out, _ := quick.race(file, false)
 		o.Secs += secs
 		outs = append(outs, out)
 		if st == "failed" { // 'unreachable' refuted: reachable
@@ -281,7 +301,12 @@ func (v *Verifier) solveBundles(obs []*Oblig, dir string, par int) {
 			o0 := b.obs[0]
 			file := filepath.Join(dir, fmt.Sprintf("bundle%d-%s.smt2", bi, sanitizeFile(o0.Func)))
 			os.WriteFile(file, []byte(o0.renderPart(and(goals...), o0.Parts[b.idx].Anc)), 0o644)
-			st, solver, secs, _, _ := v.race(file, false)
+			// a bundle is only a shortcut: one short attempt, no solver race
+			r := runSolver(context.Background(), solvers[0], file, 2)
+			st, solver, secs := "unknown", r.solver, r.secs
+			if r.ans == "unsat" {
+				st = "proved"
+			}
 			if st == "proved" {
 				for _, o := range b.obs {
 					o.Parts[b.idx].Done = true
